@@ -21,8 +21,11 @@ targets, unpackings, with-targets) backwards:
     ("cmp", op, A, B)          op in Lt LtE Eq Is In (others are normalised:
                                a > b == b < a, != is not(==) ...)
     ("not", T) ("and", ...) ("or", ...) ("ite", C, A, B)
-    ("phi", T...)              several definitions reach (branches / loops)
-    ("rec",)                   the value depends on itself (loop-carried)
+    ("mu", <defs>)             several definitions reach (branches / loops):
+                               named by the set of definitions, expanded on
+                               demand by alternatives() - ("rec",) marks a
+                               value that depends on itself (loop-carried)
+    ("phi", T...)              one of several values (elements of a display)
     ("lambda", n, body)  ("listcomp"|"setcomp"|"genexp"|"dictcomp", elt, gens)
     ("opaque", text)
 
@@ -71,6 +74,9 @@ PURE = {
     "get_region_for_chip", "unpack_routing_table_entry", "_identity",
     "ordered_covering", "remove_default_routes", "remove_default_entries",
     "build_routing_table_target_lengths", "_get_insertion_index",
+    "links_between", "shortest_torus_path", "concentric_hexagons",
+    "longest_dimension_first", "spinn5_eth_coords", "spinn5_local_eth_coord",
+    "spinn5_chip_coord", "spinn5_fpga_link",
 }
 _MUTABLE_CTORS = {"set", "list", "dict", "deque", "defaultdict",
                   "OrderedDict", "bytearray", "Counter"}
@@ -90,6 +96,29 @@ def _phi(ts):
         flat.extend(t[1:] if t[0] == "phi" else [t])
     uniq = sorted(set(flat), key=_key)
     return uniq[0] if len(uniq) == 1 else ("phi",) + tuple(uniq)
+
+
+class Mu(object):
+    """The merge of several reaching definitions of one variable."""
+    __slots__ = ("T", "ids", "var")
+
+    def __init__(self, T, ids, var):
+        self.T, self.ids, self.var = T, tuple(ids), var
+
+    def _k(self):
+        return (id(self.T.flow), tuple(sorted(self.T.dead)), self.ids)
+
+    def __eq__(self, other):
+        return isinstance(other, Mu) and self._k() == other._k()
+
+    def __ne__(self, other):
+        return not self.__eq__(other)
+
+    def __hash__(self):
+        return hash(self._k())
+
+    def __repr__(self):
+        return "<%s:%s>" % (self.var, ",".join(str(i) for i in self.ids))
 
 
 class _Bind(object):
@@ -364,9 +393,12 @@ class Terms(object):
             if t[0] == "call" and t[1] in (("global", "any"),
                                            ("global", "all")) and \
                     len(t[2]) == 1 and t[2][0][0] in ("genexp", "listcomp") \
-                    and len(t[2][0][2]) == 1:
+                    and len(t[2][0][2]) in (1, 2):
                 ge = t[2][0]
                 it, conds = ge[2][0]
+                if len(ge[2]) == 2:
+                    it = ("nest", it, ge[2][1][0])
+                    conds = tuple(conds) + tuple(ge[2][1][1])
                 cs = []
                 for c in (ge[1],) + tuple(conds):
                     p_ = True
@@ -400,12 +432,34 @@ class Terms(object):
                 if self.cfg.must_pass(body, lambda n, a=a: n is a,
                                       targets=[head]):
                     gates.append(a)
+            it = self.term(lp.iter, head)
+            if not gates:
+                # an inner loop that every iteration runs to exhaustion?
+                for lid2, head2 in cfg.loop_head.items():
+                    lp2 = head2.ast
+                    if head2.kind != "iter" or lp2 is lp or \
+                            not _inside_fn(lp2, lp):
+                        continue
+                    ex2 = [n for n in head2.succ if n.kind == "join" and
+                           n.label == "forelse"]
+                    if not ex2 or not self.cfg.must_pass(
+                            body, lambda n, e=ex2[0]: n is e,
+                            targets=[head]):
+                        continue
+                    body2 = [n for n in head2.succ if n.kind == "join" and
+                             n.label == "forbody"][0]
+                    g2 = [a for a in inside if _inside_fn(a.ast, lp2) and
+                          self.cfg.must_pass(body2, lambda n, a=a: n is a,
+                                             targets=[head2])]
+                    if g2:
+                        gates = g2
+                        it = ("nest", it, self.term(lp2.iter, head2))
+                        break
             if not gates:
                 continue
             # every other way out of a gate's sibling leaves the loop for
             # good (return / break / raise): then the gates held for every
             # element
-            it = self.term(lp.iter, head)
             cs = [self.cond(a.ast, a, a.polarity) for a in gates]
             # "none satisfies C" is  "all satisfy not C"
             out.append(_retarget(("none", it, [(c, not p_) for c, p_ in cs])
@@ -597,7 +651,7 @@ class Terms(object):
             if a.kind != "assume" or a is node:
                 continue
             c = self.cond(a.ast, a, a.polarity)
-            if any(st[0] in ("phi", "rec", "attrv", "opaque")
+            if any(st[0] in ("phi", "mu", "rec", "attrv", "opaque")
                    for st in subterms(c[0])):
                 # a merged / loop-carried / updated value: the same term at
                 # two program points need not be the same value; keep the
@@ -627,7 +681,7 @@ class Terms(object):
         ids = sorted(rd[c])
         if len(ids) == 1:
             return self._bind_term(self.binds[ids[0]])
-        return _phi(self._bind_term(self.binds[i]) for i in ids)
+        return ("mu", Mu(self, ids, c))
 
     def _attr(self, bt, attr, c, node):
         # a chain that this function assigns / a self attribute that method
@@ -705,7 +759,8 @@ class Terms(object):
     def _comp(self, t, i, n):
         if t[0] == "new" and t[2][0] == "list":
             t = t[2]
-        if t[0] in ("tuple", "list") and len(t) - 1 == n:
+        if t[0] in ("tuple", "list") and (len(t) - 1 == n or (
+                n == -1 and i < len(t) - 1)):
             return t[1 + i]
         return ("comp", t, i)
 
@@ -1080,6 +1135,37 @@ def owner_terms(T, construct):
     return T.inner(owner)
 
 
+def stores(T, fn=None):
+    """Subscript stores ``base[key] = value`` directly in T.fn:
+    [(node, statement, base term, key term, value term)]."""
+    out = []
+    for n in T.cfg.nodes:
+        st = n.ast
+        if n.kind == "stmt" and isinstance(st, ast.Assign) and \
+                len(st.targets) == 1 and \
+                isinstance(st.targets[0], ast.Subscript):
+            tgt = st.targets[0]
+            out.append((n, st, T.term(tgt.value, n),
+                        T._index(tgt.slice, n, {}), T.term(st.value, n)))
+    return out
+
+
+def method_calls(T, names):
+    """Calls ``recv.<name>(args)`` directly in T.fn (not in nested defs):
+    [(node, call, receiver term, [argument terms])]."""
+    if isinstance(names, str):
+        names = (names,)
+    out = []
+    for c in ast.walk(T.fn):
+        if isinstance(c, ast.Call) and isinstance(c.func, ast.Attribute) \
+                and c.func.attr in names and _owner(c, T.fn):
+            n = T.cfg.node_containing(c)
+            env = {}
+            out.append((n, c, T.term(c.func.value, n),
+                        [T.term(a, n) for a in c.args]))
+    return out
+
+
 def owner_views(T, construct):
     """Like owner_terms, but one view per call site when the construct lies
     in a nested helper that is called several times."""
@@ -1338,17 +1424,49 @@ def subterms(t):
                     yield s
 
 
-def alternatives(t):
-    """The possible values of a term: the members of a phi / branches of an
-    ite, else the term itself."""
+def alternatives(t, _seen=None):
+    """The possible values of a term: the definitions merged in a mu (expanded
+    recursively; ("rec",) where a value depends on itself), the members of a
+    phi, the branches of an ite; else the term itself."""
+    seen = _seen or frozenset()
+    if t[0] == "mu":
+        mu = t[1]
+        if mu in seen:
+            return [("rec",)]
+        out = []
+        for i in mu.ids:
+            for x in alternatives(mu.T._bind_term(mu.T.binds[i]),
+                                  seen | {mu}):
+                if x not in out:
+                    out.append(x)
+        return out
     if t[0] == "phi":
         out = []
         for x in t[1:]:
-            out.extend(alternatives(x))
+            for y in alternatives(x, seen):
+                if y not in out:
+                    out.append(y)
         return out
     if t[0] == "ite":
-        return alternatives(t[2]) + alternatives(t[3])
+        out = alternatives(t[2], seen)
+        for y in alternatives(t[3], seen):
+            if y not in out:
+                out.append(y)
+        return out
     return [t]
+
+
+def expand(t, depth=3):
+    """The term with its merges written out as ("phi", ...) of their
+    alternatives, ``depth`` levels deep (for structural inspection)."""
+    if not isinstance(t, tuple) or not t or t[0] == "const":
+        return t
+    if t[0] == "mu":
+        if depth == 0:
+            return ("rec",)
+        alts = [expand(x, depth - 1) for x in alternatives(t)]
+        return alts[0] if len(alts) == 1 else ("phi",) + tuple(alts)
+    return tuple(expand(x, depth) if isinstance(x, tuple) else x for x in t)
 
 
 def show(t):
@@ -1387,6 +1505,8 @@ def show(t):
         return "(%s if %s else %s)" % (show(t[2]), show(t[1]), show(t[3]))
     if k == "phi":
         return "one of {%s}" % ", ".join(sorted(show(x) for x in t[1:]))
+    if k == "mu":
+        return "%s (merged)" % t[1].var
     if k == "slice":
         return "%s:%s:%s" % tuple(show(x) for x in t[1:])
     return repr(t)
